@@ -185,7 +185,7 @@ def cone_files(prop_id):
             continue
         seen.add(p)
         txt = strip_comments(open(p).read())
-        for m in re.finditer(r"From\s+SZ\s+Require\s+(?:Import|Export)?\s*([^.]*(?:\.[A-Za-z_][\w]*)*[^.]*)\.", txt):
+        for m in re.finditer(r"From\s+SZ\s+Require\s+(?:Import|Export)?\s*((?:[A-Za-z_][\w]*(?:\.[A-Za-z_][\w]*)*\s*)+)\.(?=\s|$)", txt):
             for mod in m.group(1).split():
                 todo.append(os.path.join(COQ, "theories", mod.replace(".", "/") + ".v"))
     return sorted(seen)
